@@ -22,7 +22,15 @@ def all_configs():
     return base + low
 
 
-def head_cfg(model):
+def head_cfg(model, default=False):
+    if default:
+        # the schema / builder-preset defaults (what get_head_configs("<model>") produces): output stride 1, loss weights unset
+        base = {"single_instance": {"confmaps": {"part_names": None, "sigma": 5.0, "output_stride": 1}},
+                "centered_instance": {"confmaps": {"part_names": None, "anchor_part": None, "sigma": 5.0, "output_stride": 1}},
+                "centroid": {"confmaps": {"anchor_part": None, "sigma": 5.0, "output_stride": 1}},
+                "bottomup": {"confmaps": {"part_names": None, "sigma": 5.0, "output_stride": 1, "loss_weight": None},
+                             "pafs": {"edges": None, "sigma": 15.0, "output_stride": 1, "loss_weight": None}}}
+        return base[model]
     if model == "single_instance":
         return {"confmaps": {"part_names": None, "sigma": 1.5, "output_stride": 2}}
     if model == "centered_instance":
@@ -35,7 +43,8 @@ def head_cfg(model):
 
 def plain_config(job, repo, out_dir, chunk_dir, key):
     heads = {m: None for m in MODELS}
-    heads[job["model"]] = head_cfg(job["model"])
+    dflt = job.get("heads") == "default"
+    heads[job["model"]] = head_cfg(job["model"], dflt)
     slp = os.path.join(repo, ASSET)
     return {
         "data_config": {
@@ -50,7 +59,7 @@ def plain_config(job, repo, out_dir, chunk_dir, key):
             "init_weights": "default", "pre_trained_weights": None, "pretrained_backbone_weights": None, "pretrained_head_weights": None,
             "backbone_config": {"unet": {"in_channels": 1, "kernel_size": 3, "filters": 8, "filters_rate": 1.5, "max_stride": 8,
                                          "convs_per_block": 2, "stacks": 1, "stem_stride": None, "middle_block": True,
-                                         "up_interpolate": True, "output_stride": 2},
+                                         "up_interpolate": True, "output_stride": (1 if dflt else 2)},
                                 "convnext": None, "swint": None},
             "head_configs": heads,
         },
